@@ -146,6 +146,14 @@ pub enum Entry {
     Addr(u8),
     Garbage,
     Blank,
+    /// a parsable address that cannot be opened on this host: ::1 (cannot reach the IPv4 receiver)
+    Unopenable(u8),
+}
+
+fn unopenable_ip(k: u8) -> IpAddr {
+    // ::1 cannot reach the IPv4 receiver (whether an address could be opened is read off the result, never assumed)
+    let _ = k;
+    IpAddr::from_str("::1").unwrap()
 }
 
 #[derive(Debug, Clone, Hash, Serialize, Deserialize)]
@@ -170,10 +178,13 @@ pub struct Case {
     /// the receiver is named by host name on the command line ("localhost") instead of an IPv4 literal
     #[serde(default)]
     pub host_name: bool,
+    /// the start-up list names this element of `init` twice (start-up does not de-duplicate: two uplinks on one address)
+    #[serde(default)]
+    pub dup: Option<u8>,
 }
 
 fn apply_strategy(max_ops: usize) -> impl Strategy<Value = Case> {
-    let entry = prop_oneof![8 => (0u8..8).prop_map(Entry::Addr), 1 => (0u8..40).prop_map(Entry::Addr), 1 => Just(Entry::Garbage), 1 => Just(Entry::Blank)];
+    let entry = prop_oneof![16 => (0u8..8).prop_map(Entry::Addr), 2 => (0u8..40).prop_map(Entry::Addr), 2 => Just(Entry::Garbage), 2 => Just(Entry::Blank), 1 => (0u8..8).prop_map(Entry::Unopenable)];
     let op = prop_oneof![
         6 => (vec(entry, 0..7), any::<bool>()).prop_map(|(e, crlf)| Op::Reload(e, crlf)),
         8 => (1u8..50).prop_map(Op::Client),
@@ -189,8 +200,9 @@ fn apply_strategy(max_ops: usize) -> impl Strategy<Value = Case> {
         prop_oneof![2 => Just(100u32), 3 => (1u32..8).prop_flat_map(|k| (k * 16_384 - 60)..(k * 16_384 - 1)), 1 => Just(0u32), 1 => Just(0x7fff_ff00u32), 1 => 0u32..0x7fff_0000],
         vec(op, 1..max_ops),
         prop::bool::weighted(0.3),
+        prop_oneof![5 => Just(None), 1 => (0u8..4).prop_map(Some)],
     )
-        .prop_map(|(init, classic, first_seq, ops, host_name)| Case { init: init.into_iter().collect(), classic, first_seq, ops, host_name })
+        .prop_map(|(init, classic, first_seq, ops, host_name, dup)| Case { init: init.into_iter().collect(), classic, first_seq, ops, host_name, dup })
 }
 
 fn full_projection(sh: &Shell, i: usize) -> String {
@@ -210,12 +222,23 @@ fn full_projection(sh: &Shell, i: usize) -> String {
     )
 }
 
+fn has_twins(sh: &Shell) -> bool {
+    let mut seen = BTreeSet::new();
+    sh.st.conns.iter().any(|c| !seen.insert(c.local_ip))
+}
+
 pub fn check_apply(case: &Case, obs: &mut Obs) -> CheckResult {
     let mut cfg = ConfigSnapshot::default();
     if case.classic {
         cfg.mode = srtla_core::SchedulingMode::Classic;
     }
-    let mut sh = Shell::new_with_host(&case.init, cfg, if case.host_name { "localhost" } else { "127.0.0.1" });
+    let mut init = case.init.clone();
+    if let Some(d) = case.dup {
+        let x = init[d as usize % init.len()];
+        init.push(x);
+        obs.class("two-uplinks-on-one-address-at-start");
+    }
+    let mut sh = Shell::new_with_host(&init, cfg, if case.host_name { "localhost" } else { "127.0.0.1" });
     if case.host_name && !sh.st.host_fallback {
         obs.class("receiver-named-by-host-name");
     }
@@ -233,6 +256,10 @@ pub fn check_apply(case: &Case, obs: &mut Obs) -> CheckResult {
             Op::Flush => sh.flush_tick(),
             Op::Housekeeping => {
                 sh.housekeeping();
+            }
+            Op::Client(_) | Op::Ack(..) | Op::Nak(..) if has_twins(&sh) => {
+                // while two uplinks share an address the wire cannot be attributed to a link by its source address:
+                // traffic operations are left out, the structural clauses of a reload are still judged
             }
             Op::Client(k) => {
                 for _ in 0..*k {
@@ -279,6 +306,10 @@ pub fn check_apply(case: &Case, obs: &mut Obs) -> CheckResult {
                         Entry::Addr(k) => text.push_str(&format!(" {}{nl}", link_ip(*k))),
                         Entry::Garbage => text.push_str(&format!("not-an-ip{nl}")),
                         Entry::Blank => text.push_str(nl),
+                        Entry::Unopenable(k) => {
+                            text.push_str(&format!("{}{nl}", unopenable_ip(*k)));
+                            obs.class("unopenable-address-listed");
+                        }
                     }
                 }
                 let before_ids: Vec<u64> = sh.st.conns.iter().map(|c| c.conn_id).collect();
@@ -308,7 +339,19 @@ pub fn check_apply(case: &Case, obs: &mut Obs) -> CheckResult {
                         };
                         let removed: Vec<usize> = (0..n).filter(|i| !desired.contains(&before_ips[*i])).collect();
                         let survivors: Vec<usize> = (0..n).filter(|i| desired.contains(&before_ips[*i])).collect();
-                        let added: Vec<IpAddr> = desired.iter().copied().filter(|ip| !before_ips.contains(ip)).collect();
+                        // (exempt only if it really was not opened)
+                        let unopenable: Vec<IpAddr> = entries
+                            .iter()
+                            .filter_map(|e| if let Entry::Unopenable(k) = e { Some(unopenable_ip(*k)) } else { None })
+                            .filter(|u| sh.st.conns.iter().all(|c| c.local_ip != *u))
+                            .collect();
+                        if !unopenable.is_empty() {
+                            obs.class("listed-address-could-not-be-opened");
+                        }
+                        // an address that cannot be opened cannot be added (it is skipped with a warning); every other
+                        // new address is
+                        let added: Vec<IpAddr> = desired.iter().copied().filter(|ip| !before_ips.contains(ip) && !unopenable.contains(ip)).collect();
+
                         // survivors untouched
                         for s in &survivors {
                             let pos = sh.st.conns.iter().position(|c| c.conn_id == before_ids[*s]);
